@@ -23,7 +23,7 @@ class Prop:
 
 class ModelRun:
     def __init__(self, model, gen, nontrivial=None, regions=None, impl_env=None, spec_needs_impl=False,
-                 rule="", search=None, shrinkable=True):
+                 rule="", search=None, shrinkable=True, jobs=1):
         self.model = model
         self.gen = gen                    # gen(rng, tier) -> list[Case]
         self.nontrivial = nontrivial or (lambda c: len(c.ops) >= 2)
@@ -32,6 +32,7 @@ class ModelRun:
         self.spec_needs_impl = spec_needs_impl
         self.rule = rule
         self.shrinkable = shrinkable
+        self.jobs = jobs
         self.search = search              # search(rng, budget) -> list[Case]: directed failing-input search
 
 
@@ -103,7 +104,7 @@ def run_property(prop, tier, seed, replay=None):
         else:
             cases = corpus_cases(mr.model) + mr.gen(rng, tier)
         # witnesses of known findings are replayed separately
-        res, meta = core.run_cases(mr.model, cases, mr.impl_env, mr.spec_needs_impl)
+        res, meta = core.run_cases(mr.model, cases, mr.impl_env, mr.spec_needs_impl, jobs=mr.jobs)
         if meta["impl_crashed"] or not meta["model_lines_ok"] or not meta["spec_lines_ok"]:
             # fall back to one process per case so that a crash is attributed to its case
             res = []
@@ -185,7 +186,7 @@ def run_property(prop, tier, seed, replay=None):
             cases = mr.search(rng, budget)
             for i in range(0, len(cases), 500):
                 batch = cases[i:i + 500]
-                res, meta = core.run_cases(mr.model, batch, mr.impl_env, mr.spec_needs_impl)
+                res, meta = core.run_cases(mr.model, batch, mr.impl_env, mr.spec_needs_impl, jobs=mr.jobs)
                 searched += len(batch)
                 found = False
                 for r in res:
